@@ -345,6 +345,48 @@ def r07_6_access_buildable(ctx):
     ctx.require_min("R07.6", 20)
 
 
+def r07_7_annotation_roundtrip(ctx):
+    ctx.rule("R07.7", "the annotation of a type names the same type: for scalars, arrays and tuples of 0..5 pairwise different members, TypeSpec.annotation_type() is the value class subscripted with the annotations of its members / element (and length) in order - so a value built from the annotation (abi.make, a subroutine parameter) decodes member i with member i's type")
+    W = AbiWorld(ctx)
+    members = [("uint", 8), ("string",), ("bool",), ("uint", 16), ("uint", 64)]
+
+    def ann(shape):
+        return W.spec(shape).methods["annotation_type"]()
+
+    def text(x):
+        return strip(x)
+
+    for k in range(0, 6):
+        shape = ("tuple", tuple(members[:k]))
+        c = ctx.model.find_class("TupleTypeSpec", "pyteal.ast.abi.tuple")
+        try:
+            got = ann(shape)
+            want_members = [text(ann(m)) for m in members[:k]]
+        except Raised as r:
+            ctx.bad("R07.7", f"annotation_type[{arc4.sig(shape)}]", f"raises {r.exc_text[:60]}", c.where)
+            continue
+        if k == 0:
+            ok = text(got) == "Tuple0"
+            got_members = []
+        else:
+            sub = got.parts[1] if isinstance(got, Rec) and got.kind == "item" else None
+            got_members = [text(x) for x in (sub if isinstance(sub, (list, tuple)) else [sub])] if sub is not None else None
+            ok = isinstance(got, Rec) and got.kind == "item" and text(got.parts[0]) == f"Tuple{k}" and got_members == want_members
+        ctx.check(ok, "R07.7", f"annotation_type[{arc4.sig(shape)}]", f"is {text(got)}; the members' annotations are {want_members} in this order", c.where, fact={"annotation": text(got)[:120]})
+    for shape in (("sarr", ("uint", 16), 3), ("darr", ("string",)), ("sarr", ("tuple", (("uint", 8), ("bool",))), 2)):
+        c = ctx.model.find_class(arc4.class_of(shape))
+        try:
+            got = ann(shape)
+            el = text(ann(arc4.elem(shape)))
+        except Raised as r:
+            ctx.bad("R07.7", f"annotation_type[{arc4.sig(shape)}]", f"raises {r.exc_text[:60]}", c.where)
+            continue
+        t = text(got)
+        ok = isinstance(got, Rec) and got.kind == "item" and el in t and (shape[0] == "darr" or str(shape[2]) in t)
+        ctx.check(ok, "R07.7", f"annotation_type[{arc4.sig(shape)}]", f"is {t}; it must name the element annotation {el}" + ("" if shape[0] == "darr" else f" and the length {shape[2]}"), c.where, fact={"annotation": t[:120]})
+    ctx.require_min("R07.7", 9)
+
+
 def run(ctx):
     r07_1_index_tuple(ctx)
     r07_2_decoders(ctx)
@@ -352,6 +394,7 @@ def run(ctx):
     r07_4_slices(ctx)
     r07_5_immutable_values(ctx)
     r07_6_access_buildable(ctx)
+    r07_7_annotation_roundtrip(ctx)
     from rules import c06 as _c06, c04 as _c04
 
     _c06.r06_1_descriptors(ctx)  # static lengths / dynamic-ness the walkers rely on (shared with C06)
